@@ -1,0 +1,85 @@
+//go:build verif
+
+package unused
+
+// Contracts for the verification machinery in /verif (see /verif/DESIGN.md).
+// This file contains only comments; it is compiled to nothing.
+
+//@ prop C17
+
+// The graph: node ids index g.nodes, every use/own edge points at a node.
+//@ ghost wfGraph(nodes []Node) bool = forall a int, j int :: {nodes[a].uses[j]} 0 <= a && a < len(nodes) && 0 <= j && j < len(nodes[a].uses) ==> 0 <= nodes[a].uses[j] && nodes[a].uses[j] < len(nodes)
+//@ ghost seen(s nodeState) bool = bit(s, 0)
+
+// Reachability is not first-order definable. Rch is an ARBITRARY predicate that contains the
+// root (node 0) and is closed under use edges; every such predicate contains the truly
+// reachable nodes, so "newly seen ==> Rch" for arbitrary Rch is soundness of the colouring,
+// and "seen contains the root and is closed under edges" is completeness (the least-fixpoint
+// step from these two to "seen == reachable" is the paper argument recorded in DESIGN.md).
+//@ ghost Rch(n NodeID) bool
+//@ ghost closedRch(nodes []Node) bool = forall a int, j int :: {nodes[a].uses[j]} 0 <= a && a < len(nodes) && 0 <= j && j < len(nodes[a].uses) && Rch(a) ==> Rch(nodes[a].uses[j])
+
+//@ func (*SerializedGraph).color
+//@   requires g != nil && 0 <= rootID && rootID < len(g.nodes) && len(states) >= len(g.nodes)
+//@   requires wfGraph(g.nodes) && closedRch(g.nodes) && Rch(rootID)
+//@   writes   states
+//@   ensures  [len]    len(states) == len(old(states))
+//@   ensures  [mono]   forall i int :: {states[i]} 0 <= i && i < len(states) && seen(old(states)[i]) ==> seen(states[i])
+//@   ensures  [root]   seen(states[rootID])
+//@   ensures  [closed] forall i int, j int :: {g.nodes[i].uses[j]} 0 <= i && i < len(g.nodes) && seen(states[i]) && !seen(old(states)[i]) && 0 <= j && j < len(g.nodes[i].uses) ==> seen(states[g.nodes[i].uses[j]])
+//@   ensures  [sound]  forall i int :: {states[i]} 0 <= i && i < len(g.nodes) && seen(states[i]) && !seen(old(states)[i]) ==> Rch(i)
+//@   ensures  [quiet]  forall i int :: {states[i]} 0 <= i && i < len(states) ==> bit(states[i], 1) == bit(old(states)[i], 1)
+//@   loop 1   index k
+//@   loop 1   invariant [len]    len(states) == len(loopentry(states))
+//@   loop 1   invariant [mono]   forall i int :: {states[i]} 0 <= i && i < len(states) && seen(loopentry(states)[i]) ==> seen(states[i])
+//@   loop 1   invariant [done]   forall j int :: {root.uses[j]} 0 <= j && j < k ==> seen(states[root.uses[j]])
+//@   loop 1   invariant [closed] forall i int, j int :: {g.nodes[i].uses[j]} 0 <= i && i < len(g.nodes) && seen(states[i]) && !seen(loopentry(states)[i]) && 0 <= j && j < len(g.nodes[i].uses) ==> seen(states[g.nodes[i].uses[j]])
+//@   loop 1   invariant [sound]  forall i int :: {states[i]} 0 <= i && i < len(g.nodes) && seen(states[i]) && !seen(loopentry(states)[i]) ==> Rch(i)
+//@   loop 1   invariant [quiet]  forall i int :: {states[i]} 0 <= i && i < len(states) ==> bit(states[i], 1) == bit(loopentry(states)[i], 1)
+
+//@ ghost wfOwns(nodes []Node) bool = forall a int, j int :: {nodes[a].owns[j]} 0 <= a && a < len(nodes) && 0 <= j && j < len(nodes[a].owns) ==> 0 <= nodes[a].owns[j] && nodes[a].owns[j] < len(nodes)
+//@ ghost wfIDs(nodes []Node) bool = forall a int :: {nodes[a]} 0 <= a && a < len(nodes) ==> nodes[a].id == a
+
+// quieten only sets the quiet bit: the seen bits (the verdict "used") are untouched
+//@ func (*SerializedGraph).colorAndQuieten$1
+//@   requires g != nil && 0 <= id && id < len(g.nodes) && len(states) >= len(g.nodes) && wfOwns(g.nodes)
+//@   modifies states
+//@   ensures  [len]  len(states) == len(old(states))
+//@   ensures  [seen] forall i int :: {states[i]} 0 <= i && i < len(states) ==> seen(states[i]) == seen(old(states)[i])
+//@   loop 1   invariant [len]  len(states) == len(loopentry(states))
+//@   loop 1   invariant [seen] forall i int :: {states[i]} 0 <= i && i < len(states) ==> seen(states[i]) == seen(loopentry(states)[i])
+
+// The seen bits computed for a graph: node 0 is seen, the seen set is closed under use edges
+// (completeness) and contained in every edge-closed predicate containing node 0 (soundness):
+// seen == reachable from the root, a function of the edge SET only.
+//@ func (*SerializedGraph).colorAndQuieten
+//@   requires g != nil && len(g.nodes) >= 1 && wfGraph(g.nodes) && wfOwns(g.nodes) && wfIDs(g.nodes)
+//@   requires closedRch(g.nodes) && Rch(0)
+//@   pure
+//@   reads    SerializedGraph.nodes
+//@   ensures  [len]    len(result) == len(g.nodes) + 1
+//@   ensures  [root]   seen(result[0])
+//@   ensures  [closed] forall i int, j int :: {g.nodes[i].uses[j]} 0 <= i && i < len(g.nodes) && seen(result[i]) && 0 <= j && j < len(g.nodes[i].uses) ==> seen(result[g.nodes[i].uses[j]])
+//@   ensures  [sound]  forall i int :: {result[i]} 0 <= i && i < len(g.nodes) && seen(result[i]) ==> Rch(i)
+//@   loop 1   index k
+//@   loop 1   invariant [len]  len(states) == len(g.nodes) + 1
+//@   loop 1   invariant [seen] forall i int :: {states[i]} 0 <= i && i < len(states) ==> seen(states[i]) == seen(loopentry(states)[i])
+//@   loop 2   invariant [len]  len(states) == len(g.nodes) + 1
+//@   loop 2   invariant [seen] forall i int :: {states[i]} 0 <= i && i < len(states) ==> seen(states[i]) == seen(loopentry(states)[i])
+
+// Results partitions the nodes other than the root by (seen, quiet).
+//@ ghost objIn(os []Object, o Object) bool = exists x int :: {os[x]} 0 <= x && x < len(os) && os[x] == o
+//@ func (*SerializedGraph).Results
+//@   requires g != nil && len(g.nodes) >= 1 && wfGraph(g.nodes) && wfOwns(g.nodes) && wfIDs(g.nodes)
+//@   requires closedRch(g.nodes) && Rch(0)
+//@   ensures  [used_sound]     forall x int :: {result.Used[x]} 0 <= x && x < len(result.Used) ==> (exists i int :: {g.nodes[i]} 1 <= i && i < len(g.nodes) && g.nodes[i].obj == result.Used[x] && seen(g.colorAndQuieten()[i]))
+//@   ensures  [unused_sound]   forall x int :: {result.Unused[x]} 0 <= x && x < len(result.Unused) ==> (exists i int :: {g.nodes[i]} 1 <= i && i < len(g.nodes) && g.nodes[i].obj == result.Unused[x] && !seen(g.colorAndQuieten()[i]) && !bit(g.colorAndQuieten()[i], 1))
+//@   ensures  [used_complete]  forall i int :: {g.nodes[i]} 1 <= i && i < len(g.nodes) && seen(g.colorAndQuieten()[i]) ==> objIn(result.Used, g.nodes[i].obj)
+//@   ensures  [unused_complete] forall i int :: {g.nodes[i]} 1 <= i && i < len(g.nodes) && !seen(g.colorAndQuieten()[i]) && !bit(g.colorAndQuieten()[i], 1) ==> objIn(result.Unused, g.nodes[i].obj)
+//@   ensures  [count] len(result.Used) + len(result.Quiet) + len(result.Unused) == len(g.nodes) - 1
+//@   loop 1   index k
+//@   loop 1   invariant [used_sound]     forall x int :: {res.Used[x]} 0 <= x && x < len(res.Used) ==> (exists i int :: {g.nodes[i]} 1 <= i && i < k + 1 && g.nodes[i].obj == res.Used[x] && seen(states[i]))
+//@   loop 1   invariant [unused_sound]   forall x int :: {res.Unused[x]} 0 <= x && x < len(res.Unused) ==> (exists i int :: {g.nodes[i]} 1 <= i && i < k + 1 && g.nodes[i].obj == res.Unused[x] && !seen(states[i]) && !bit(states[i], 1))
+//@   loop 1   invariant [used_complete]  forall i int :: {g.nodes[i]} 1 <= i && i < k + 1 && seen(states[i]) ==> objIn(res.Used, g.nodes[i].obj)
+//@   loop 1   invariant [unused_complete] forall i int :: {g.nodes[i]} 1 <= i && i < k + 1 && !seen(states[i]) && !bit(states[i], 1) ==> objIn(res.Unused, g.nodes[i].obj)
+//@   loop 1   invariant [count] len(res.Used) + len(res.Quiet) + len(res.Unused) == k
